@@ -7,7 +7,7 @@ namespace Wbxml
 abbrev Bytes := List UInt8
 
 /-- `b!"abc"` elaborates to the explicit byte list `[0x61, 0x62, 0x63]` (kernel-friendly literals). -/
-syntax "b!" str : term
+syntax:max "b!" str : term
 open Lean in
 macro_rules
   | `(b! $s) => do
